@@ -202,7 +202,29 @@ Theorem web_errors_are_400_refuted : reciprocal_overflows 1 (2 ^ 1074) = true /\
 Proof. vm_compute. split; reflexivity. Qed.
 Print Assumptions web_errors_are_400_refuted.
 
+(* -- the "Active filters" legend (report.go legendActiveFilters; glue between option values and every text report) --
+   whatever the filter texts (any bytes, any length): the 80-byte cut is taken behind a guard in the same unit *)
+Theorem legend_active_filters_never_panics : forall active, is_panic (legend_active_filters active) = false.
+Proof. exact legend_active_filters_no_panic. Qed.
+Print Assumptions legend_active_filters_never_panics.
+
+(* a filter of at most 80 bytes is printed as it is; a longer one as its first 80 bytes and an ellipsis:
+   a legend line never exceeds 3 + 80 + 3 bytes *)
+Theorem legend_line_short_is_verbatim : forall s, (String.length s <= 80)%nat -> legend_line s = Ok ("   " ++ s)%string.
+Proof. exact legend_line_short_identity. Qed.
+Print Assumptions legend_line_short_is_verbatim.
+
+Theorem legend_line_is_bounded : forall s x, legend_line s = Ok x -> (String.length x <= 86)%nat.
+Proof. exact legend_line_bounded. Qed.
+Print Assumptions legend_line_is_bounded.
+
 (* -- non-vacuity and the necessity of the hypotheses -- *)
+Example legend_examples :
+  legend_active_filters [] = Ok [] /\
+  legend_active_filters ["focus=a|b"; "hide=x"] = Ok ["Active filters:"; "   focus=a|b"; "   hide=x"] /\
+  cli_active_filters ["-top"; "-focus=a"; "--hide=h"; "-focus=b"; "-tagfocus="; "p"] = ["focus=b"; "hide=h"].
+Proof. vm_compute. repeat split; reflexivity. Qed.
+
 Example trim_tree_sites_exist : trim_tree_sites <> [] /\ build_tree_formats <> [].
 Proof. split; discriminate. Qed.
 
